@@ -407,7 +407,8 @@ SPEC = PropSpec(
                  "knots x order {0,1} x extrapolate are a complete partition - expected values come from the "
                  "checker's own closed forms. Plus effect analysis: calibrators are stateless. Does not decide "
                  "floating-point rounding of calibration results."
-                 ' Polynomials and enumerations are also evaluated as declared in a document (repeated exponents summed; enumeration values beyond 2**53, zero, all-ones).'),
+                 ' Polynomials and enumerations are also evaluated as declared in a document (repeated exponents summed; enumeration values beyond 2**53, zero, all-ones).'
+                 ' Splines are also evaluated as declared in a document with <SplinePoint> attributes in any order; listed enumeration values with empty or false-looking labels, and negative values on every signed spelling, map to their labels; R8.e2: the second end-to-end document of C01, also with DEBUG logging switched on.'),
     rule_doc="one obligation per family/configuration; each covers all its ordering classes / match subsets",
     assumptions=["CPython float arithmetic (executed natively on extracted expressions)",
                  "criteria evaluation is correct (C06)", "the raw integer read is correct (C03/C04)"],
